@@ -114,7 +114,7 @@ def _match_open(segs, k):
 
 @predicate("star_after_call_with_leading_cast")
 def _star_after_call_with_leading_cast(v, codes):
-    """C01: a binary `*` right after the `)` of a call whose first argument starts with a cast"""
+    """C01: a binary `*` right after the `)` of a call whose first argument starts with a cast or with `sizeof(type *)`"""
     d = v.get("detail") or {}
     if v["kind"] != "false_positive" or d.get("code") not in codes or d.get("seg") != "*" or d.get("cls") != "op:bin":
         return False
@@ -128,12 +128,21 @@ def _star_after_call_with_leading_cast(v, codes):
     o = _match_open(segs, k)
     if o is None or o == 0 or segs[o - 1][1] != "id:func":
         return False
-    if segs[o + 1] != ("(", "punct"):
+    a = o + 1
+    in_sizeof = segs[a] == ("sizeof", "kw")
+    if in_sizeof:
+        a += 1
+    if segs[a] != ("(", "punct"):
         return False
-    # the inner parenthesis must be closed by a cast parenthesis
-    for q in range(o + 2, k):
+    # the inner parenthesis must be closed by a cast parenthesis, or be the operand of sizeof and end in a pointer star
+    for q in range(a + 1, k):
         if segs[q][0] == ")":
-            return segs[q][1] == "punct:cast"
+            if segs[q][1] == "punct:cast":
+                return True
+            b = q - 1
+            while b > a and segs[b][1].startswith("ws"):
+                b -= 1
+            return in_sizeof and segs[b][1] == "op:ptr"
     return False
 
 
@@ -164,11 +173,14 @@ def f60_shape(segs):
         k += 1
     if len(segs) < k + 5:
         return False
-    if not (segs[k][1] == "id:var" and segs[k + 1][1] == "op:member" and segs[k + 2][1] == "id:member"):
+    if segs[k] == ("(", "punct") and segs[k + 1][0] == "*" and segs[k + 2][1].startswith("id:") and segs[k + 3] == (")", "punct"):
+        j = k + 4           # (*f)(...)
+    elif segs[k][1] == "id:var" and segs[k + 1][1] == "op:member" and segs[k + 2][1] == "id:member":
+        j = k + 3
+        while j + 1 < len(segs) and segs[j][1] == "op:member" and segs[j + 1][1] == "id:member":
+            j += 2
+    else:
         return False
-    j = k + 3
-    while j + 1 < len(segs) and segs[j][1] == "op:member" and segs[j + 1][1] == "id:member":
-        j += 2
     if j >= len(segs) or segs[j] != ("(", "punct"):
         return False
     rest = segs[j:]
